@@ -54,6 +54,8 @@ var Tokens = []string{
 	"\"", "'", ",", ";", "^", "(", ")", "cmd", "C M D", "ca^t", "\"c\"at", "/bin/sh",
 	"\x80", "\xff", "\xc3\xa9", "\xe4\xbd\xa0", "\xf0\x9f\x98\x80", "\xc3", "\xe4\xbd", "\xed\xa0\x80", "\xc0\xaf", "\xef\xbc\x81",
 	"İ", "K", "ſ", " ", "　", " ",
+	// multi-byte white space split by ASCII white space or NUL (what is left after removing the inner byte is white space again)
+	"\xc2 \x85", "\xc2\t\xa0", "\xe2 \x80\xa8", "\xe2\x80\n\xa8", "\xe3\x80 \x80", "\xc2\x00\xa0", "\xe2\x80\x00\x83", " \xc2", "\xa0 ",
 }
 
 // Bytes returns a random byte string made of vocabulary tokens and raw bytes.
